@@ -89,7 +89,8 @@ struct World {
 
 #include <map>
 struct Item;
-// live-object registry (E1 serialises threads between schedule points, so a plain map is safe here)
+// live-object registry (E1 serialises threads between schedule points, so a plain map is safe there; it is
+// switched off in native runs, where it would be a data race of the harness's own)
 static std::map<const Item*, std::string>& itemReg() {
   static std::map<const Item*, std::string> m;
   return m;
@@ -101,19 +102,23 @@ struct Item {
   std::unique_ptr<int> heap; // owns memory: a leaked Item is a leaked allocation
   Item() {
     live.fetch_add(1);
-    itemReg()[this] = "default";
+    if (dsched_active())
+      itemReg()[this] = "default";
   }
   explicit Item(int i) : id(i), heap(new int(i)) {
     live.fetch_add(1);
-    itemReg()[this] = "fresh id=" + std::to_string(i);
+    if (dsched_active())
+      itemReg()[this] = "fresh id=" + std::to_string(i);
   }
   Item(Item&& o) noexcept : id(o.id), hops(o.hops), heap(std::move(o.heap)) {
     live.fetch_add(1);
-    itemReg()[this] = "move-constructed id=" + std::to_string(id) + " hops=" + std::to_string(hops) + " on thread " + std::to_string(dsched_tid());
+    if (dsched_active())
+      itemReg()[this] = "move-constructed id=" + std::to_string(id) + " hops=" + std::to_string(hops) + " on thread " + std::to_string(dsched_tid());
   }
   Item(const Item& o) : id(o.id), hops(o.hops), heap(o.heap ? new int(*o.heap) : nullptr) {
     live.fetch_add(1);
-    itemReg()[this] = "copy-constructed id=" + std::to_string(id) + " hops=" + std::to_string(hops);
+    if (dsched_active())
+      itemReg()[this] = "copy-constructed id=" + std::to_string(id) + " hops=" + std::to_string(hops);
   }
   Item& operator=(Item&& o) noexcept {
     id = o.id;
@@ -129,7 +134,8 @@ struct Item {
   }
   ~Item() {
     live.fetch_sub(1);
-    itemReg().erase(this);
+    if (dsched_active())
+      itemReg().erase(this);
   }
 };
 std::atomic<int> Item::live{0};
